@@ -87,8 +87,10 @@ fn main() {
         println!("RESULT-MISMATCH concurrent {:?} vs one-after-another {:?}", conc.per_thread, seq.per_thread);
         std::process::exit(1);
     }
-    if conc.post != seq.post {
-        println!("TEMPLATE-MISMATCH {:?} vs {:?}", conc.post, seq.post);
+    // the sequential run shares this process's caches with the concurrent one that ran first, so it cannot serve as the
+    // yardstick for what got cached: compare with what a sequential negotiation gives on this platform
+    if conc.post != seq.post || conc.post != expected_post() {
+        println!("TEMPLATE-MISMATCH {:?} vs {:?} (expected {:?})", conc.post, seq.post, expected_post());
         std::process::exit(1);
     }
     if !conc.linearizable {
